@@ -505,3 +505,19 @@ for _pid, _rid in (("C02", "R02.3"), ("C04", "R04.3"), ("C03", "R03.9"), ("C18",
 for _pid, _rid in (("C02", "R02.4"), ("C03", "R03.10"), ("C04", "R04.9")):
     V(_pid, "cell enlarged by Cartesian column instead of lattice vector", _rid, (SBC, "new_cell[i, :] *= (max_pos - min_pos) + 1", "new_cell[:, i] *= (max_pos - min_pos) + 1"))
     V(_pid, "twin: lattice vector selected without the slice", "silent", (SBC, "new_cell[i, :] *= (max_pos - min_pos) + 1", "new_cell[i] *= (max_pos - min_pos) + 1"))
+
+# ------------------------------------------------------------------------------------------ round 9
+_LBL3 = "                        system, cell, seed_pos, pos_tol, pbc=system.get_pbc()\n                    )\n                except Exception:\n                    return None, None, None\n                index_cell_map[i_seed] = (i_indices, i_pos, i_factors)\n\n            # Add the seed node factor\n            final_factors = []\n            for factor in i_factors:\n                i_final_factor = tuple(np.array(i_seed_factor) + factor)\n"
+for _pid, _rid in (("C04", "R04.3"), ("C02", "R02.3")):
+    V(_pid, "image label of a found atom mirrored (3D builder)", _rid, (PFD, _LBL3, _LBL3.replace("np.array(i_seed_factor) + factor", "np.array(i_seed_factor) - factor")))
+    V(_pid, "twin: image label sum commuted", "silent", (PFD, _LBL3, _LBL3.replace("np.array(i_seed_factor) + factor", "factor + np.array(i_seed_factor)")))
+for _pid, _rid in (("C11", "R11.2"), ("C04", "R04.14")):
+    V(_pid, "signed matrix entry compared with the tolerance in the axis scan", _rid, (SYM, "                    abs(axis[i_pbc]) > prec\n", "                    axis[i_pbc] > prec\n"))
+    V(_pid, "twin: numpy magnitude in the axis scan", "silent", (SYM, "                    abs(axis[i_pbc]) > prec\n", "                    np.abs(axis[i_pbc]) > prec\n"))
+V("C18", "classifier default of max_2d_single_cell_size taken from another constant", "R18.7", (CLS, "max_2d_single_cell_size=constants.MAX_SINGLE_CELL_SIZE,", "max_2d_single_cell_size=constants.MAX_CELL_SIZE,"))
+_CUT = "    max_radii = radii_1x.max()\n    cutoff = cluster_threshold + 2 * max_radii\n"
+for _pid, _rid in (("C09", "R09.2"), ("C17", "R17.8"), ("C13", "R13.6")):
+    V(_pid, "cutoff from the sum of the two largest radii", _rid, (GEO, _CUT, "    if len(radii_1x) > 1:\n        max_radii_sum = np.sort(radii_1x)[-2:].sum()\n    else:\n        max_radii_sum = 2 * radii_1x.max()\n    cutoff = cluster_threshold + max_radii_sum\n"))
+V("C09", "twin: cutoff through a branch that keeps 2*max(radii) on both sides", "silent", (GEO, _CUT, "    max_radii = radii_1x.max()\n    if len(radii_1x) > 1:\n        reach = 2 * max_radii\n    else:\n        reach = max_radii + max_radii\n    cutoff = cluster_threshold + reach\n"))
+for _pid, _rid in (("C17", "R17.7"), ("C04", "R04.10"), ("C02", "R02.2"), ("C18", "R18.8")):
+    V(_pid, "axis number used to index the filter over the periodic vectors", _rid, (PFD, "                if periodic_filter[i_per_span]:", "                if periodic_filter[periodic_axes[i_per_span]]:"))
